@@ -29,6 +29,8 @@ for mod,structs in by.items():
         uninterp spec fn spec_dec(b: Seq<u8>) -> Option<({n}, int)>;
         open spec fn progresses() -> bool {{ false }}
         open spec fn self_delimiting() -> bool {{ false }}
+        open spec fn dec_rel(b: Seq<u8>, v: &{n}, k: int) -> bool {{ true }}
+        open spec fn dec_total() -> bool {{ false }}
         /// the tag loop is specified by totality and frame clauses only
         open spec fn functional() -> bool {{ false }}
         //@ fn exp:zvt | impl zvt_builder::encoding::Encoding<{n}> for zvt_builder::encoding::Default | encode | mod={mod} props=C03
